@@ -17,6 +17,7 @@ GCD_KA = z3.Function("gcd_ka", I, I, I)
 GCD_KB = z3.Function("gcd_kb", I, I, I)
 BL = z3.Function("bit_length", I, I)
 POW2 = z3.Function("pow2", I, I)
+BYTE_AT = z3.Function("byte_at", I, I, I, I)
 POWMOD = z3.Function("powmod", I, I, I, I)
 INV = z3.Function("invert", I, I, I)
 INV_K = z3.Function("invert_k", I, I, I)
@@ -723,6 +724,20 @@ def _s_pow2_add(eng, st, a, b):
   return True
 
 
+@specfn("pow2_const")
+def _s_pow2_const(eng, st, e, k):
+  """Theory axiom instance (monotonicity of 2^x between a term and a numeral K): 0 <= e <= K ==> pow2(e) <= 2^K and
+  e >= K ==> pow2(e) >= 2^K.  Always returns True."""
+  e = to_z3(eng.need_int(st, e))
+  if not isinstance(k, int) or k < 0 or k > 10**5:
+    raise_unsupported("pow2_const: the second argument must be a small non-negative numeral")
+  eng.used_theories.add("pow2 monotone against a numeral exponent (instantiated on request)")
+  p = t_pow2(eng, st, e)
+  st.assume(z3.Implies(z3.And(e >= 0, e <= k), p <= 2 ** k), z3.Implies(e >= k, p >= 2 ** k),
+            z3.Implies(z3.And(e >= 0, e < k), 2 * p <= 2 ** k), z3.Implies(e > k, p >= 2 ** (k + 1)))
+  return True
+
+
 def t_powmod(eng, st, a, e, m):
   if isinstance(a, int) and isinstance(e, int) and isinstance(m, int) and m != 0 and e >= 0:
     return pow(a, e, m)
@@ -1030,6 +1045,11 @@ def construct(eng, st, f, args, kwargs, node):
     fv = FuncV("method", init[1], node=init[2], selfv=obj, module=init[0])
     c = C.REGISTRY.get(f"{init[0].relpath}::{init[1]}")
     if c is not None and not c.inline:
+      # constructor under contract: the fields it declares start as arbitrary values of their types (the contract's
+      # postconditions are then assumed about them)
+      o = st.deref(obj)
+      for fname, ft in c.self_fields.items():
+        o.fields[fname] = eng.fresh_heap(st, ft, f"{f.name}.{fname}")
       eng.apply_contract(st, c, fv, args, kwargs, node)
     else:
       eng.inline(st, fv, [obj] + list(args), kwargs, node)
@@ -1702,7 +1722,12 @@ def dict_get(eng, st, o, key, node):
     eng.implicit(st, "KeyError", False, node, "key not in dict")
   k = to_z3(eng.need_int(st, key))
   eng.implicit(st, "KeyError", z3.Select(o.dom, k), node, "key not in dict")
-  return V.select_rep(o.val_t, o.rep, k)
+  v = V.select_rep(o.val_t, o.rep, k)
+  if not st.nofresh and "bytes" in str(o.val_t):
+    # a value read from the map is a well-formed value of its type (bytes: length >= 0, 0 <= value < 256^length)
+    st.assume(*V.type_constraints(o.val_t, v))
+    eng._bytes_wf(st, v)
+  return v
 
 
 def dict_set(eng, st, o, key, v, node):
@@ -2202,6 +2227,13 @@ def call_method(eng, st, selfv, name, args, kwargs, node):
       b = V.fresh("bytes", name)
       st.assume(to_z3(b.length) == to_z3(k), b.val >= 0, b.val < _pow256(eng, st, k))
       return b
+    if name == "update" and "encryptor" in selfv.why and len(args) == 1:
+      eng.used_theories.add("cryptography Cipher(...).encryptor().update(b): returns some bytes (length and content "
+                            "unspecified)")
+      b = V.fresh("bytes", "cipher_update")
+      st.assume(*V.type_constraints("bytes", b))
+      eng._bytes_wf(st, b)
+      return b
     if name == "getrandbits" and args:
       k = eng.need_int(st, args[0], node)
       eng.used_theories.add("random.getrandbits(k): 0 <= r < 2^k")
@@ -2603,9 +2635,16 @@ def bytes_index(eng, st, b, idx, node, checked=False):
   b = bytes_val(b)
   i = idx if checked else _norm_index(eng, st, b.length, idx, node, "index out of range")
   # byte i (from the left) of a big-endian value of `length` bytes
+  if st.nofresh and not (isinstance(b.length, int) and isinstance(i, int)) and is_sym(b.val):
+    # under a binder (quantified clause): the byte as an opaque term byte_at(val, len, i); the same term is defined
+    # arithmetically at every index expression of the code (below), so quantified facts about bytes match by name
+    return BYTE_AT(to_z3(b.val), to_z3(b.length), to_z3(i))
   sh = _pow256(eng, st, to_z3(b.length) - 1 - to_z3(i)) if not (isinstance(b.length, int) and isinstance(i, int)) \
       else 256 ** (b.length - 1 - i)
-  return eng.mod(st, eng.floordiv(st, b.val, sh, node), 256, node)
+  r = eng.mod(st, eng.floordiv(st, b.val, sh, node), 256, node)
+  if is_sym(b.val) and not (isinstance(b.length, int) and isinstance(i, int)):
+    st.assume(BYTE_AT(to_z3(b.val), to_z3(b.length), to_z3(i)) == to_z3(r))
+  return r
 
 
 def bytes_slice(eng, st, b, lo, hi, step, node):
